@@ -46,3 +46,7 @@ PLAN.update({
     "C13": dict(quick=["cold13"], thorough=["cold13"]),
     "C20": dict(quick=["group"], thorough=["group"]),
 })
+
+SUITES["time7"] = dict(mc="MC_Seq")
+
+PLAN["C07"] = dict(quick=["time7"], thorough=["time7"])
